@@ -212,8 +212,8 @@ type Check struct {
 	Replay func(raw json.RawMessage) *Result
 	// Finish runs in the driver after merging (non-vacuity conditions, derived counters).
 	Finish func(tier string, merged *Result)
-	// CrashIsViolation: a worker that dies of a fatal runtime error (stack overflow, out of memory) is a violation
-	// of this property (C02: "the process cannot exhaust its stack"), reported with the shard as the case.
+	// CrashIsViolation: a worker that dies of memory exhaustion is a violation of this property too (a stack overflow
+	// inside a parse is one for every check), reported with the shard as the case.
 	CrashIsViolation bool
 	// Bounds describes the bound explored per tier (goes into the evidence).
 	Bounds func(tier string) map[string]any
@@ -305,7 +305,10 @@ func ReplayMain(path string) int {
 		fmt.Fprintln(os.Stderr, "no replay for", rf.Property)
 		return 2
 	}
-	res := c.Replay(rf.Case)
+	res := replayCrash(rf.Property, rf.Case)
+	if res == nil {
+		res = c.Replay(rf.Case)
+	}
 	for _, n := range res.Notes {
 		fmt.Println(n)
 	}
@@ -318,6 +321,29 @@ func ReplayMain(path string) int {
 	}
 	fmt.Printf("VIOLATION property=%s replay=%s\n", rf.Property, path)
 	return 1
+}
+
+// replayCrash handles the case form {"crashed_shard": ...}: it re-runs that worker; the case reproduces if the worker
+// dies of a fatal runtime error again. Returns nil for every other case form.
+func replayCrash(id string, raw json.RawMessage) *Result {
+	var crash struct {
+		Shard  *int   `json:"crashed_shard"`
+		Shards int    `json:"shards"`
+		Tier   string `json:"tier"`
+		Seed   int64  `json:"seed"`
+	}
+	if json.Unmarshal(raw, &crash) != nil || crash.Shard == nil {
+		return nil
+	}
+	res := NewResult()
+	self, _ := os.Executable()
+	cmd := exec.Command(self, "worker", id, crash.Tier, fmt.Sprint(*crash.Shard), fmt.Sprint(crash.Shards), fmt.Sprint(crash.Seed))
+	cmd.Env = append(os.Environ(), "GOMAXPROCS=1", "GOTRACEBACK=single")
+	out, err := cmd.CombinedOutput()
+	if err != nil && (bytes.Contains(out, []byte("fatal error")) || bytes.Contains(out, []byte("out of memory")) || bytes.Contains(out, []byte("goroutine stack exceeds"))) {
+		res.Violate("worker-crash", "the worker died of a fatal runtime error again", raw)
+	}
+	return res
 }
 
 func seedFromEnv() int64 {
@@ -392,9 +418,15 @@ func CheckMain(id, tier string) int {
 			}
 			mu.Lock()
 			defer mu.Unlock()
-			if err != nil && c.CrashIsViolation {
+			if err != nil {
+				// a worker whose parse overflows the goroutine stack has not returned what any of the properties promise
+				// for that input: a violation of every check; running out of memory only where the check says so
 				es := stderr.String()
-				for _, sig := range []string{"fatal error: stack overflow", "goroutine stack exceeds", "fatal error: out of memory", "runtime: out of memory"} {
+				sigs := []string{"fatal error: stack overflow", "goroutine stack exceeds"}
+				if c.CrashIsViolation {
+					sigs = append(sigs, "fatal error: out of memory", "runtime: out of memory")
+				}
+				for _, sig := range sigs {
 					if strings.Contains(es, sig) {
 						if res == nil {
 							res = NewResult()
